@@ -243,7 +243,8 @@ MergeGroup(grp) ==
           ELSE LET types == IF cfg.disableOr THEN {}
                             ELSE IF cfg.redundantOr THEN (IF dom0 \in shp THEN {} ELSE {dom0.k}) \cup {s.k : s \in shp}
                             ELSE IF dom0 \in shp THEN {s.k : s \in shp} ELSE {}
-                   dom1 == IF Cardinality(types) > 1 THEN [dom0 EXCEPT !.ks = types, !.k = "", !.com = {}] ELSE dom0
+                   \* (a disjunction lists every arm that is a shape in its comments, the dominant one included)
+                   dom1 == IF Cardinality(types) > 1 THEN [dom0 EXCEPT !.ks = types, !.k = "", !.com = IF dom0 \in shp THEN {Fact(dom0)} ELSE {}] ELSE dom0
                IN [dom1 EXCEPT !.com = @ \cup feed(dom0)]
 MergeTie(grp) == Cardinality(grp) > 1 /\ TiedMax({s \in grp : IsShape(s.k)})
 MergeF(ss) == LET plain == {s \in ss : ~IsNL(s)}
@@ -274,12 +275,19 @@ ProfKeys(inst) == OpKeys(inst) \cup (IF cfg.mode = "classes" THEN ToSet(cfg.targ
 ProfsOf(inst) == [k \in ProfKeys(inst) |-> ProfOf(inst, k)]
 \* ClassProfiler._clean_class_profile: with remove_empty_shapes, classes without features are dropped and the references
 \* to them are deleted from the other classes' profiles, until no feature-less class is left
+\* (the labels of a shape map are protected at this stage - ClassProfiler._is_original_target_shape - and only go, with the
+\*  statements that refer to them, when the shapes are cleaned: CleanR; target classes are meant to be protected too, but the
+\*  profiler compares their *shape names* with class keys, so they never are)
+ProtectedKeys == IF cfg.mode \in {"shapemap", "mixed"} THEN ItemLabels ELSE {}
 RECURSIVE CleanProfiles(_)
 CleanProfiles(profs) ==
-  LET gone == {k \in DOMAIN profs : DOMAIN profs[k] = {}}
+  LET gone == {k \in DOMAIN profs : DOMAIN profs[k] = {} /\ k \notin ProtectedKeys}
   IN IF gone = {} THEN profs
      ELSE CleanProfiles([k \in DOMAIN profs \ gone |->
              [q \in {x \in DOMAIN profs[k] : ~(IsShape(x[3]) /\ KeyOfShape(x[3]) \in gone)} |-> profs[k][q]]])
+\* the profile as the `profiled` hook logs it (after the clean-up): rows <<key, inverse, property, kind, cardinality, count>>
+ProfileRows(profs) == UNION {{<<k, q[1], q[2], q[3], q[4], profs[k][q]>> : q \in DOMAIN profs[k]} : k \in DOMAIN profs}
+OpProfileRows == LET profs0 == ProfsOf(TrackF) IN ProfileRows(IF cfg.removeEmpty THEN CleanProfiles(profs0) ELSE profs0)
 OutFrom(inst, profs0) ==
   LET profs == IF cfg.removeEmpty THEN CleanProfiles(profs0) ELSE profs0
       raw == [k \in DOMAIN profs |-> IF DOMAIN profs[k] = {} THEN {} ELSE ShapeOf(profs[k], Cardinality(OpInst(inst, k)))]
